@@ -7,14 +7,16 @@ O2 == O1 + NBoundary
 O3 == O2 + NData
 O4 == O3 + NAccessList
 O5 == O4 + NChain
-Count == O5 + NRandom
+O6 == O5 + NRandom
+Count == O6 + NShortSig
 ItemAt(g) ==
   IF g <= O1 THEN PresenceAt(g)
   ELSE IF g <= O2 THEN BoundaryAt(g - O1)
   ELSE IF g <= O3 THEN DataAt(g - O2)
   ELSE IF g <= O4 THEN AccessListAt(g - O3)
   ELSE IF g <= O5 THEN ChainAt(g - O4)
-  ELSE RandomAt(g - O5)
+  ELSE IF g <= O6 THEN RandomAt(g - O5)
+  ELSE ShortSigAt(g - O6)
 VARIABLE n
 INSTANCE GenBase
 =============================================================================
